@@ -10,7 +10,10 @@ def run_config(chk, tier, cfgname):
                 "live value once and frees every block once from every phase over all short list shapes, resuming "
                 "after a panicking destructor; nothing is touched after release (use-after-free events in any "
                 "table); the live flag is set only at allocation; release layout = request layout by sibling term "
-                "agreement (decided in the C17 check, referenced here).")
+                "agreement (decided in the C17 check, referenced here); the primitives the tables treat as 'destructed' / "
+                "'released' (GcPtr::drop_in_place / dealloc) forward to their vtable slot on every path and the slot's "
+                "closure destructs / releases the allocated type (an optional slot may be empty only by a needs_drop "
+                "decision for that very type).")
     chk.not_decided += ["that the allocator received every block back for concrete histories (needs the all-list "
                         "to contain every allocation: list-shape rule O7 is the structural part)",
                         "purity of user AllocMeta::layout"]
@@ -35,8 +38,11 @@ def run_config(chk, tier, cfgname):
                             "destructed value could be flagged live again" % (e.caller, "true" if val == 1 else "non-constant"),
                      loc="%s:%s" % (e.file, e.line))
     chk.floor("set_live(true)-sites", n, 1)
-    from gcv import rules_layout
+    from gcv import rules_layout, rules_prims
     rules_layout.agreement(chk, prog)
+    # the events "destructed" / "released" of the tables are the primitives GcPtr::drop_in_place / dealloc: they
+    # must forward to their vtable slot on every path and the slot must do the work for the allocated type
+    rules_prims.check(chk, prog, which=("gc_ptr::GcPtr::drop_in_place", "gc_ptr::GcPtr::dealloc"), config=cfgname)
 
 
 def run(chk, tier):
